@@ -206,9 +206,17 @@ def hist_check(imgs, answers, opts, script, log):
     from . import crashwl as CW
     pick = [(d, ci, pol) for (d, ci, pol), a in zip(imgs, answers) if a and len(a) > 3 and a[1] == "ok" and a[3].startswith("list:")]
     if len(pick) > 60:
-        # namespace operations first (manifest switch, unlink), then a sample
+        # namespace operations first (manifest switch, unlink), then a sample.  Every image at most once: the same
+        # directory opened by two harness processes at the same time makes the second `open` fail on the store's LOCK
+        # file (that was the intermittent `index hist: / LSM err:NoTxn`); the sample is topped up to 60 distinct images
         prio = [x for x in pick if log[x[1]][:1] in ("R", "U", "S")]
-        pick = prio[:40] + pick[::max(1, len(pick) // 20)][:20]
+        sel = dict.fromkeys(prio[:40] + pick[::max(1, len(pick) // 20)][:20])
+        for x in pick:
+            if len(sel) >= 60:
+                break
+            sel.setdefault(x)
+        pick = list(sel)
+    pick = list(dict.fromkeys(pick))
     scripts, meta = [], []
     for d, ci, pol in pick:
         d2 = d + "_lsm"
@@ -221,20 +229,35 @@ def hist_check(imgs, answers, opts, script, log):
     if not scripts:
         return out
     res = C.run_pairs(scripts, sides=("impl",), timeout=900)
+
+    def read_side(r):
+        """(history line, None) when the side opened, began and answered the history query; (None, what happened) otherwise"""
+        a, err, rc = r["impl"]
+        if len(a) > 3 and a[0] == "ok" and a[1] == "ok" and a[2] == "ok" and a[3].startswith("hist:"):
+            return a[3], None
+        names = ("newat", "open", "begin", "history", "close")
+        what = ", ".join("%s -> %s" % (n, a[i][:160] if i < len(a) else "<no answer>") for i, n in enumerate(names))
+        return None, "%s (exit code %s%s)" % (what, rc, ", stderr: " + err.strip()[-200:] if err.strip() else "")
+
+    def report(desc, ci):
+        text = ["# property=C10", "# oracle: " + desc[:900], "# options: " + opts, "# workload:"] + ["> " + l for l in script]
+        text += ["# log tail before the cut:"] + ["#   " + l[:160] for l in log[max(0, ci - 10):ci + 1]]
+        out.append((desc[:600], "\n".join(text) + "\n"))
+
     for j, (d, ci, pol) in enumerate(meta):
-        a = res[2 * j]["impl"][0]
-        b = res[2 * j + 1]["impl"][0]
-        ha = a[3] if len(a) > 3 else "<missing>"
-        hb = b[3] if len(b) > 3 else "<missing>"
+        ha, ea = read_side(res[2 * j])
+        hb, eb = read_side(res[2 * j + 1])
         shutil.rmtree(d + "_lsm", ignore_errors=True)
-        if ha != hb:
-            desc = ("after recovery of the crash image at operation %d (%s), model=%s, the version history through the index differs from the "
-                    "history of the LSM back-end: index %s / LSM %s" % (ci, log[ci][:60], pol, ha[:150], hb[:150]))
-            text = ["# property=C10", "# oracle: " + desc[:600], "# options: " + opts, "# workload:"] + ["> " + l for l in script]
-            text += ["# log tail before the cut:"] + ["#   " + l[:160] for l in log[max(0, ci - 10):ci + 1]]
-            out.append((desc[:400], "\n".join(text) + "\n"))
-            if len(out) >= 2:
-                break
+        if ea is not None or eb is not None:
+            # a side that cannot be read is reported as that, never compared with the other one
+            sides = [n for n, e in (("through the index (idx=1, the image itself)", ea), ("through the LSM back-end (idx=0, a copy of the image)", eb)) if e]
+            report("the crash image at operation %d (%s), model=%s, reopened and scanned correctly, but its version history cannot be read back %s: %s"
+                   % (ci, log[ci][:60], pol, " nor ".join(sides), " | ".join(e for e in (ea, eb) if e)), ci)
+        elif ha != hb:
+            report("after recovery of the crash image at operation %d (%s), model=%s, the version history through the index differs from the "
+                   "history of the LSM back-end: index %s / LSM %s" % (ci, log[ci][:60], pol, ha[:150], hb[:150]), ci)
+        if len(out) >= 2:
+            break
     return out
 
 
